@@ -24,6 +24,19 @@ __attribute__((noinline)) void h_r1_hhe_hydrogen_only(void) {
   const double lhs = ch * (1. - h0) * (1. - h0);
   __verif_check((lhs - h0 <= 1.e-3 * h0) & (h0 - lhs <= 1.e-3 * h0));
 }
+// R1b: the same hydrogen-only gas (AHe = 0) but WITH helium-ionizing photons in the spectrum (J_He > 0): the helium half of the solver runs
+// on an abundance of zero and must not poison the hydrogen result
+__attribute__((noinline)) void h_r1b_hhe_hydrogen_only_jhe(void) {
+  const double alphaH = nondet_double(), alphaHe = nondet_double(), jH = nondet_double(), jHe = nondet_double(), nH = nondet_double(), T = nondet_double();
+  __CPROVER_assume((alphaH >= 1.e-20) & (alphaH <= 1.e-16) & (alphaHe >= 1.e-20) & (alphaHe <= 1.e-16) & (jH >= 1.e-20) & (jH <= 1.e3) & (jHe >= 1.e-20) & (jHe <= 1.e3) & (nH >= 1.e4) & (nH <= 1.e12) & (T >= 100.) & (T <= 1.e5));
+  double h0 = -1., he0 = -1.;
+  IonizationStateCalculator::compute_ionization_states_hydrogen_helium(alphaH, alphaHe, jH, jHe, nH, 0., T, h0, he0);
+  __verif_check(h0 > 0.); __verif_check(h0 < 1.);
+  __verif_check(he0 > 0.); __verif_check(he0 <= 1.);
+  const double ch = alphaH * nH / jH;
+  const double lhs = ch * (1. - h0) * (1. - h0);
+  __verif_check((lhs - h0 <= 1.e-3 * h0) & (h0 - lhs <= 1.e-3 * h0));
+}
 // I2: metal stages for every positive electron density
 __attribute__((noinline)) void h_i2_metals(void) {
   NDRates rates; ChargeTransferRates ctr; IonizationVariables iv;
